@@ -108,6 +108,20 @@ def replay(case):
             got = tf.gram(x, x2, basis)
             if got.shape != want.shape or np.max(np.abs(got - want)) > 1e-10 * max(1.0, np.max(np.abs(want))):
                 out.append(('gram:value', 'Gram matrix differs from Psi(x1)^T Psi(x2)'))
+            # the same data set twice, a data set and a copy, time-lagged / reversed views of one buffer, integer dtype
+            m1 = x.shape[1]
+            full = np.ones((m1, m1))
+            for a in vals:
+                full = full * (a.T @ a)
+            scen = [('same-array', x, x, full), ('copy', x, x.copy(), full), ('reversed-view', x, x[:, ::-1], full[:, ::-1]),
+                    ('int-dtype', x.astype(np.int64), x2.astype(np.int64), want)]
+            if m1 >= 2:
+                scen.append(('lagged-views', x[:, :-1], x[:, 1:], full[:-1, 1:]))
+            for name, a1, a2, w in scen:
+                g = tf.gram(a1, a2, basis)
+                if g.shape != w.shape or np.max(np.abs(g - w)) > 1e-10 * max(1.0, np.max(np.abs(w))):
+                    out.append(('gram:value:%s' % name, 'Gram matrix of %s data sets differs from Psi(x1)^T Psi(x2)' % name))
+                    break
             return out
         want = psi_from_leaves(vals)
         if exp['exact']:
@@ -118,6 +132,7 @@ def replay(case):
             basis = [[make_fn(f) for f in mode] for mode in cfg['basis']]
             t = tf.basis_decomposition(x, basis)
             out += cmp_tt(t, want, 'general')
+            out += cmp_tt(tf.basis_decomposition(x.astype(np.int64), basis), want, 'general:int-dtype')
             if not out:
                 for i in range(len(basis)):
                     c = tf.basis_decomposition(x, basis, single_core=i)
@@ -155,6 +170,7 @@ def replay(case):
             phi = [(lambda e: (lambda s: ev_expr(e, [s])))(exp['leaves'][0][i][0]['e']) for i in range(len(cfg['phi']))]
             t = tf.coordinate_major(x, phi)
             out += cmp_tt(t, want, 'cm')
+            out += cmp_tt(tf.coordinate_major(x.astype(np.int64), phi), want, 'cm:int-dtype')      # lattice data stored as integers
             if not out:
                 for i in range(x.shape[0]):
                     c = tf.coordinate_major(x, phi, single_core=i)
@@ -166,6 +182,7 @@ def replay(case):
             phi = [(lambda e: (lambda s: ev_expr(e, [s])))(exp['leaves'][k][off][0]['e']) for k in range(len(cfg['phi']))]
             t = tf.function_major(x, phi, add_one=cfg['addone'])
             out += cmp_tt(t, want, 'fm')
+            out += cmp_tt(tf.function_major(x.astype(np.int64), phi, add_one=cfg['addone']), want, 'fm:int-dtype')
             if not out:
                 for i in range(len(phi)):
                     c = tf.function_major(x, phi, add_one=cfg['addone'], single_core=i)
